@@ -57,12 +57,28 @@ def only_empty(x):
 
 # ----------------------------------------------------------------- builders
 
+from vivarium.core.process import Process as _Process
+
+
+class _Proc(_Process):
+    name = 'p'
+
+    def ports_schema(self):
+        return {}
+
+    def next_update(self, timestep, states):
+        return {}
+
+
 def build_store(tree):
     from vivarium.core.store import Store
 
     def config(t):
         if isinstance(t, dict):
             return {k: config(v) for k, v in t.items()}
+        if t == '<proc>':
+            return {'_value': _Proc({}), '_updater': 'set', '_topology': {},
+                    '_serializer': 'process'}
         return {'_default': t, '_value': t}
     if not isinstance(tree, dict):
         raise ValueError('root must be a branch')
@@ -102,6 +118,9 @@ def law_nav(res, tree, store, start, path):
     if '..' in path:
         res.label('nav.dotdot')
         res.nontrivial = True
+    from vivarium.core.process import Process
+    if isinstance(a.value, Process):
+        res.label('nav.from_process_node')
     want_abs = ref.normalize(start + path)
     if want_abs != reached:
         raise AssertionError('reference disagrees with itself')
@@ -317,8 +336,10 @@ def run_case(spec, store=None):
 def trees(depth, keys=KEYS):
     # leaves include falsy values: 0, '', False, None must be stored, found
     # and enumerated like any other value
+    # '<proc>' becomes a node holding a Process in the Store built from the
+    # tree ('..' must climb from such a node as from any other)
     leaf = st.one_of(st.integers(0, 99),
-                     st.sampled_from([0, '', False, None, 'v']))
+                     st.sampled_from([0, '', False, None, 'v', '<proc>']))
     if depth == 0:
         return leaf
     sub = trees(depth - 1, keys)
